@@ -126,6 +126,23 @@ func solveAll(obls []*Obligation, workDir string, timeoutS int, thorough bool, p
 		}()
 	}
 	wg.Wait()
+	// an obligation that ran into the time limit is tried once more with three times the limit before it is called
+	// undecided: a loaded machine must not turn a proof that usually takes a few seconds into an alarm
+	for i, v := range out {
+		if v != nil && v.Status == "undecided" && v.Solver != "SOLVER-ERROR" && v.Ms >= int64(timeoutS)*900 {
+			i, o := i, obls[i]
+			wg.Add(1)
+			sem <- struct{}{}
+			go func() {
+				defer wg.Done()
+				defer func() { <-sem }()
+				r := solveOne(o, workDir, timeoutS*3, thorough)
+				r.Ms += out[i].Ms
+				out[i] = r
+			}()
+		}
+	}
+	wg.Wait()
 	return out
 }
 
